@@ -10,7 +10,7 @@ from vpkit import common, zoo
 
 ID = "C27"
 N = {"quick": 240, "thorough": 20000}
-BUDGET = {"quick": 240.0, "thorough": 1200.0}
+BUDGET = {"quick": 240.0, "thorough": 700.0}
 RULE = ("case = (DAG of a zoo tree sequence, incl. multi-tree, polytomies, internal/historical samples, "
         "6 unconstrained time vectors: noisy, shuffled, constant, reversed, already feasible, huge scale; "
         "epsilon 1e-12..1e3; iterations 0/1/7/100); distinct by (topology hash, vector kind, eps, "
